@@ -46,7 +46,7 @@ claim("C12", CONC + "blocked-callers <= max backlog at every quiescent point, qu
 claim("C13", CONC + "exact-instant bound oracle on the virtual clock (arrival+timeout, deadline, cancel instant, context deadlines, equality cases; strict F-lag for slow releasers)",
       "With all capacity held (or released on the same 1 ms grid as the bounds) every blocked call must return refused exactly at its bound; already-cancelled / past-deadline calls at the arrival instant.",
       NOTE_CONC, "DESIGN.md §3 C13")
-claim("C14", HIST + "event-log protocol oracle over fake handler/invoker/stream and recording limiter doubles with injected refusals and errors; small concurrent part on real limiters",
+claim("C14", HIST + "event-log protocol oracle over fake handler/invoker/stream and recording limiter doubles with injected refusals and errors; concurrent parts on real limiters; end-to-end part: real gRPC client and server over an in-memory listener inside the bubble, handler goroutines scheduled by the simulator, client deadlines / cancellations mid-call, ledger oracle (exactly-once completion, refusal short-circuit, unchanged results, zero in flight at the end)",
       "Every operation's event sequence (acquire on the right limiter, wrapped call, exactly one listener call of the classified kind, unchanged result, refusal short-circuit and status code) is checked.",
       NOTE_HIST + " Stream classifier mapping: RecvMsg -> stream server classifier, SendMsg -> stream client classifier.", "DESIGN.md §3 C14")
 claim("C15", HIST + "feasible-reset-set observer over RTTNoLoad() (needs no private state)",
